@@ -3,7 +3,7 @@
 
 use crate::{serialization, transaction::rlp};
 use ethaddr::Address;
-use serde::Deserialize;
+use serde::{Deserialize, Deserializer};
 
 /// An Ethereum virtual machine storage slot.
 #[derive(Clone, Copy, Debug, Default, Deserialize, Eq, Hash, Ord, PartialOrd, PartialEq)]
@@ -18,9 +18,29 @@ impl StorageSlot {
 }
 
 /// An EIP-2930 access list.
-#[derive(Clone, Debug, Default, Deserialize, Eq, PartialEq)]
-#[serde(transparent)]
+#[derive(Clone, Debug, Default, Eq, PartialEq)]
 pub struct AccessList(pub Vec<(Address, Vec<StorageSlot>)>);
+
+impl<'de> Deserialize<'de> for AccessList {
+    fn deserialize<D>(deserializer: D) -> Result<Self, D::Error>
+    where
+        D: Deserializer<'de>,
+    {
+        #[derive(Deserialize)]
+        struct Entry(
+            #[serde(with = "serialization::address")] Address,
+            Vec<StorageSlot>,
+        );
+
+        let entries = Vec::<Entry>::deserialize(deserializer)?;
+        Ok(AccessList(
+            entries
+                .into_iter()
+                .map(|Entry(address, slots)| (address, slots))
+                .collect(),
+        ))
+    }
+}
 
 impl AccessList {
     /// RLP encodes a storage slot.
